@@ -10,6 +10,7 @@ from fsmc.explore import Harness
 from fsmc.design import MachineryError
 
 BYTES6 = (0x00, 0xFF, 0xA5, 0x5A, 0x01, 0x80)
+BYTES24 = tuple(sorted(set(BYTES6) | {1 << k for k in range(8)} | {0xFF ^ (1 << k) for k in range(8)} | {0x55, 0xAA, 0x0F, 0xF0}))
 PEND, READY, BUSY, QUIET = 8, 16, 32, 64
 
 
@@ -167,7 +168,9 @@ class RxHarness(Harness):
     4 clocks after it ends; none for a 0 stop bit or a break."""
     live_queries = (("uart.rx.stuck", BUSY | QUIET, 0, (), "line idle for ever but the receiver FSM never returns to IDLE"),)
 
-    def __init__(self, name, tuning_word, P_tx, bytes_, breaks=True, phases=None, cap=None):
+    def __init__(self, name, tuning_word, P_tx, bytes_, breaks=True, phases=None, cap=None, overlap=True, max_frames=None):
+        self.overlap = overlap
+        self.max_frames = max_frames
         self.name, self.tw, self.bytes, self.breaks = name, tuning_word, tuple(bytes_), breaks
         self.P_rx = Fraction(2**32, tuning_word)
         self.lm = LineModel(P_tx)
@@ -194,13 +197,13 @@ class RxHarness(Harness):
         self.idle_code = self.dut.fsm.encoding["IDLE"]
 
     def env_init(self):
-        return (None, (), 0, 1)        # the line must idle 2 clocks after reset (the synchroniser resets to 0)
+        return (None, (), 0, 1, 0)        # the line must idle 2 clocks after reset (the synchroniser resets to 0)
 
     def choices(self, env):
-        line, pend, gap, bad = env
+        line, pend, gap, bad = env[:4]
         if line is None:
             out = [("i",)]
-            if len(pend) < 2 and (not bad or gap >= 2):
+            if len(pend) < (2 if self.overlap else 1) and (not bad or gap >= 2) and (self.max_frames is None or env[4] < self.max_frames):
                 for b in self.bytes:
                     for s in (1, 0):
                         for j in self.phases:
@@ -236,7 +239,7 @@ class RxHarness(Harness):
         v[self.i_rx] = self._level(env, ch)
 
     def observe(self, v, env, ch):
-        line, pend, gap, bad = env
+        line, pend, gap, bad, nfr = env
         lm = self.lm
         if ch[0] == "f":
             line = (ch[1], ch[2], ch[3], 0)
@@ -286,7 +289,7 @@ class RxHarness(Harness):
             flags |= BUSY
         if ch[0] == "i" and not pend2:
             flags |= QUIET
-        return (line2, tuple(pend2), gap2, bad2), None, flags
+        return (line2, tuple(pend2), gap2, bad2, nfr + 1 if (self.max_frames is not None and ch[0] in ("f", "b")) else nfr), None, flags
 
     def cover_report(self):
         return dict(deliveries=self.delivered, bad_stop_frames=self.bad_seen, samples_on_an_edge=self.amb_seen,
